@@ -124,6 +124,8 @@ int   vf_ienv_get(int ispec);
 #define VF_EV_ZERO_PIVOT 1
 #define VF_EV_ILU_PIVOT  2
 #define VF_EV_ILU_DROP   3
+#define VF_EV_STACK_OVERLAP 4   /* head of the caller-workspace stack passed its tail after a growth */
+#define VF_EV_WS_GROWTH  5      /* growths inside the caller workspace (coverage) */
 void  vf_events_reset(void);
 long  vf_events_count(int kind);
 int   vf_events_first(int kind);            /* first argument of first event of that kind, -1 if none */
@@ -132,6 +134,7 @@ int   vf_events_first(int kind);            /* first argument of first event of 
 #define VF_EXIT_ABORT 44
 #define VF_EXIT_HANG  45
 #define VF_EXIT_PROTO 46
+#define VF_EXIT_RECYCLE 47
 
 /* ------------------------------------------------------------------ cases */
 typedef struct vf_case {
@@ -199,7 +202,7 @@ void mat_to_dense(const vf_mat *A, ldc *D);              /* column-major m x n, 
 uint64_t mat_pattern_hash(const vf_mat *A);
 
 enum { PAT_RANDOM, PAT_RANDOM_DIAG, PAT_BAND, PAT_ARROW, PAT_BLOCKDIAG, PAT_BLOCKTRI, PAT_PERMTRI,
-       PAT_GRID, PAT_DENSE, PAT_DIAG, PAT_STAIR, PAT__N };
+       PAT_GRID, PAT_DENSE, PAT_DIAG, PAT_STAIR, PAT_LOWERDENSE, PAT__N };
 enum { VAL_UNIF, VAL_DIAGDOM, VAL_ROWSCALED, VAL_COLSCALED, VAL_BOTHSCALED, VAL_GRADED, VAL_SMALLINT, VAL_POW2, VAL__N };
 extern const char *pat_names[], *val_names[];
 
